@@ -189,6 +189,7 @@ def main(argv=None):
     violations = []
     known_hits = []
     spurious = []
+    unconfirmed = []
     inconclusive = []
     harness_errors = []
     n_oblig = n_proved = n_norm = n_solver = 0
@@ -260,6 +261,8 @@ def main(argv=None):
                         known_hits.append((k, rec))
                     else:
                         violations.append(rec)
+                elif o.get('model_only'):
+                    unconfirmed.append(rec)
                 else:
                     spurious.append(rec)
 
@@ -341,6 +344,7 @@ def main(argv=None):
                  'symbolic inputs of that path; the split closed-by-normal-form / needed-solver-search is reported next to it',
             obligations=n_oblig, discharged=n_proved, discharged_by_normal_form=n_norm,
             discharged_by_solver=n_solver, inconclusive=len(inconclusive), spurious_counterexamples=len(spurious),
+            unconfirmed_model_only_counterexamples=len(unconfirmed), unconfirmed_list=unconfirmed[:5],
             known_findings_hit=sorted(printed_known), vacuity_witnesses=vacuity,
             cases=len(work), cases_incomplete=incomplete, solver_queries=queries, solver_seconds=round(solver_s, 2),
             functions_encoded=list(getattr(mod, 'ENCODED', [])), bounds=getattr(mod, 'BOUNDS', {}).get(tier, ''),
@@ -364,8 +368,8 @@ def main(argv=None):
     json.dump(ev, open(os.path.join(ROOT, 'evidence', pid + '.json'), 'w'), indent=1, default=str)
 
     print('%s tier=%s cases=%d paths=%d obligations=%d proved=%d (normal-form %d, solver %d) inconclusive=%d '
-          'spurious=%d violations=%d known=%d queries=%d solver_s=%.1f wall_s=%.1f' % (
-              pid, tier, len(work), paths, n_oblig, n_proved, n_norm, n_solver, len(inconclusive), len(spurious),
+          'spurious=%d unconfirmed=%d violations=%d known=%d queries=%d solver_s=%.1f wall_s=%.1f' % (
+              pid, tier, len(work), paths, n_oblig, n_proved, n_norm, n_solver, len(inconclusive), len(spurious), len(unconfirmed),
               len(violations), len(printed_known), queries, solver_s, time.time() - t_start))
     if a.verbose or harness_errors:
         for h in harness_errors[:10]:
